@@ -141,33 +141,46 @@ def noCaseCollisionMap : JM → Bool
   | .cons _ v t => noCaseCollision v && noCaseCollisionMap t
 end
 
-/-! ### re-casing of keys (type directed: the keys of a map-typed field are data) -/
+/-! ### re-casing of keys (type directed: the keys of a map are data, the keys of a struct are field names) -/
+
+/-- the field (looked up through embedded structs, in declaration order) whose lower-cased key is `lk`. -/
+def flatFind? : Fields → Str → Option Ty
+  | .nil, _ => none
+  | .cons f t rest, lk =>
+    if f.embedded then
+      match t with
+      | .struct fs =>
+        match flatFind? fs lk with
+        | some x => some x
+        | none => flatFind? rest lk
+      | _ => flatFind? rest lk
+    else if lower f.tagKey = lk then some t else flatFind? rest lk
 
 mutual
-/-- `recasedVal i a b`: `b` is `a` with the case of some keys changed, where only keys that name a field known to `i`
-(directly or after lower-casing) may change, and only in case. Mirrors the traversal of `toLowerCaseKeyMap`. -/
-def recasedVal (i : Info) : J → J → Bool
-  | .obj m, .obj m' => recasedMap i m m'
-  | .arr l, .arr l' => recasedList i l l'
-  | a, b => decide (a = b)
-def recasedList (i : Info) : JL → JL → Bool
+/-- `recasedTy t a b`: document `b` is document `a` with the case of some struct-field keys changed.
+At a struct position a key that names a field up to case may change its case; every other key and every map key
+(data) stays; scalars stay. -/
+def recasedTy : Ty → J → J → Bool
+  | .struct fs, .obj m, .obj m' => recasedStruct fs m m'
+  | .ptr (.struct fs), .obj m, .obj m' => recasedStruct fs m m'
+  | .slice t, .arr l, .arr l' => recasedList t l l'
+  | .map t, .obj m, .obj m' => recasedMapVals t m m'
+  | _, a, b => decide (a = b)
+def recasedList (t : Ty) : JL → JL → Bool
   | .nil, .nil => true
-  | .cons h t, .cons h' t' => recasedVal i h h' && recasedList i t t'
+  | .cons h r, .cons h' r' => recasedTy t h h' && recasedList t r r'
   | _, _ => false
-def recasedMap (i : Info) : JM → JM → Bool
+def recasedMapVals (t : Ty) : JM → JM → Bool
   | .nil, .nil => true
-  | .cons k v t, .cons k' v' t' =>
-    (match i.child? (lower k) with
-     | some ti => decide (lower k' = lower k) && recasedVal ti v v'
-     | none =>
-       decide (k' = k) &&
-       (match i.mapField? with
-        | some mi => recasedVal mi v v'
-        | none =>
-          match v, v' with
-          | .obj vv, .obj vv' => recasedMap i vv vv'
-          | a, b => decide (a = b)))
-    && recasedMap i t t'
+  | .cons k v r, .cons k' v' r' => decide (k' = k) && recasedTy t v v' && recasedMapVals t r r'
+  | _, _ => false
+def recasedStruct (fs : Fields) : JM → JM → Bool
+  | .nil, .nil => true
+  | .cons k v r, .cons k' v' r' =>
+    (match flatFind? fs (lower k) with
+     | some ft => decide (lower k' = lower k) && recasedTy ft v v'
+     | none => decide (k' = k) && decide (v' = v))
+    && recasedStruct fs r r'
   | _, _ => false
 end
 
